@@ -1,6 +1,7 @@
 import UrcuVerif.Src.StackLocal
 import UrcuVerif.Src.StackRefine
 import UrcuVerif.Src.StackWfsPop
+import UrcuVerif.Src.StackWfsPopAny
 import UrcuVerif.Src.StackLfsRcu
 import UrcuVerif.Src.StackWfq
 import UrcuVerif.Src.StackConverse
@@ -178,6 +179,45 @@ theorem ___cds_wfs_pop_refines_total (fuel : Nat) (env : Env) (inp : List Val) (
     ∃ out, exec fuel Gen.Src.«___cds_wfs_pop» env inp = .ok out ∧
       ∃ ls', lr .pop s ls out.events = some ls' ∧ Done out ls' :=
   pop_refines_total fuel env inp s stv bl cfg ls hs hstv hblv hst hcfg hpc hinp hnn
+
+/-- `___cds_wfs_pop` for **every** oracle (no assumption on its values – in particular `poll()` may return anything):
+an `.ok` run whose loads / cmpxchg observed well-typed values (`WTs out.events`) refines L2 -/
+theorem ___cds_wfs_pop_refines_any (fuel : Nat) (env : Env) (inp : List Val) (s : Nat) (stv : Val) (bl cfg : Int)
+    (ls : LState)
+    (hs : env.vars "u_stack" = some (.ptr (.obj s))) (hstv : env.vars "state" = some stv)
+    (hblv : env.vars "blocking" = some (.int bl))
+    (hst : stv = .int 0 ∨ ∃ st, stv = .ptr st ∧ st ≠ cfgLoc)
+    (hcfg : env.priv cfgLoc = some (.int cfg))
+    (hpc : ls.pc = .popLd (bl != 0))
+    (out : Out) (hout : exec fuel Gen.Src.«___cds_wfs_pop» env inp = .ok out) (hW : WTs out.events) :
+    ∃ ls', lr .pop s ls out.events = some ls' ∧ Done out ls' ∧
+      (∀ st r, stv = .ptr st → out.ctl = .ret r → out.env.priv st = some (.int (lastFlag ls'.ret))) :=
+  pop_refines_any fuel env inp s stv bl cfg ls hs hstv hblv hst hcfg hpc out hout hW
+
+theorem ___cds_wfs_node_sync_next_refines_any (fuel : Nat) (env : Env) (inp : List Val) (s h : Nat) (bl : Int)
+    (ls : LState)
+    (hn : env.vars "node" = some (.ptr (.obj h))) (hbv : env.vars "blocking" = some (.int bl))
+    (hnode : Wfs.isNode h) (hpc : ls.pc = .popSync (bl != 0) h)
+    (o : Out) (ho : exec fuel Gen.Src.«___cds_wfs_node_sync_next» env inp = .ok o) :
+    (o.ctl = .fuel ∨ o.ctl = .blocked ∨ (o.env.priv = env.priv ∧
+        ((o.ctl = .ret (some (.int (-1))) ∧ bl = 0) ∨ ∃ w, o.ctl = .ret (some w)))) ∧
+    ((∀ ev ∈ o.events, ObsWT ev) → ∃ ls', lr .pop s ls o.events = some ls' ∧
+      (o.ctl = .fuel ∨ o.ctl = .blocked ∨
+       (o.ctl = .ret (some (.int (-1))) ∧ bl = 0 ∧ ls' = ⟨.idle, .wouldblock⟩) ∨
+       (∃ k, k ≠ 0 ∧ o.ctl = .ret (some (enc k)) ∧ ls' = ⟨.popCas (bl != 0) h k, ls.ret⟩))) :=
+  sync_next_any fuel env inp s h bl ls hn hbv hnode hpc o ho
+
+/-- a run the oracle-typed theorem does not cover: `7->next` reads NULL ten times, `poll()` returns -1 (EINTR), then
+`7->next` = END and the cmpxchg succeeds: 23 events, all observed values well-typed -/
+example : ∃ out, exec 12 Gen.Src.«___cds_wfs_pop»
+      (envOf [("u_stack", .ptr (.obj 0)), ("state", .int 0), ("blocking", .int 1)] cfgOff)
+      ([.ptr (.obj 7)] ++ List.replicate 10 (.int 0) ++ [.int (-1), .int 1, .ptr (.obj 7)]) = .ok out ∧
+    out.events.length = 23 ∧ (Event.ext "poll" [.int 0, .int 0, .int 10] (.int (-1))) ∈ out.events ∧
+    WTs out.events ∧ out.ctl = .ret (some (.ptr (.obj 7))) ∧
+    lr .pop 0 ⟨.popLd true, .void⟩ out.events = some ⟨.idle, .node 7 true⟩ := by
+  sexec [Gen.Src.«___cds_wfs_pop», Gen.Src.«___cds_wfs_node_sync_next», Gen.Src.«___cds_wfs_end», envOf, cfgOff,
+    List.lookup, iterate, List.replicate, WTs, ObsWT]
+  decide
 
 /-- blocking pop with `state`: head = node 7, `7->next` reads NULL once (busy-wait: `caa_cpu_relax`), then END,
 the cmpxchg succeeds: 5 events, returns node 7 with `*state = CDS_WFS_STATE_LAST` -/
